@@ -2,7 +2,7 @@ import FgaVerif.Model.Ast
 import FgaVerif.Engine.Sort
 /-! Port of the *construction* half of the weighted graph builder
     (`pkg/go/graph/weighted_graph_builder.go`, `GetOrAddNode`/`AddEdge`/`UpsertEdge`/`HasEdge` of
-    `weighted_graph.go`).  Weight assignment is specified separately (`Spec/Weights.lean`).
+    `weighted_graph.go`).  Weight assignment is ported in `Model/WAssign.lean` and specified in `Spec/Weights.lean`.
     Operator nodes get the unique label `<operator>:<n>` (creation ordinal) instead of a ULID. -/
 namespace FgaVerif.Model.WGraph
 open FgaVerif.Model
